@@ -1,6 +1,6 @@
 //! Shared plumbing of the implementation-side harness: deterministic PRNG,
 //! hex helpers, aligned buffers, and the CASE/OBS line protocol with
-//! per-case isolation (catch_unwind for panics, alarm() for hangs; aborts and
+//! per-case isolation (catch_unwind for panics, a CPU-time timer (SIGPROF) for hangs; aborts and
 //! stack overflows kill the process and are attributed by the orchestrator to
 //! the case in flight).
 pub mod pe;
@@ -150,6 +150,16 @@ impl Drop for Aligned {
 	}
 }
 
+fn set_cpu_budget(seconds: u32) {
+	let tv = libc::timeval { tv_sec: seconds as libc::time_t, tv_usec: 0 };
+	let zero = libc::timeval { tv_sec: 0, tv_usec: 0 };
+	let it = libc::itimerval { it_interval: zero, it_value: tv };
+	unsafe {
+		libc::setitimer(libc::ITIMER_PROF, &it, std::ptr::null_mut());
+		libc::alarm(seconds.saturating_mul(10));
+	}
+}
+
 /// message and location of a caught panic (the location is recorded by the hook installed in harness_main)
 pub fn panic_text(e: Box<dyn std::any::Any + Send>) -> String {
 	let msg = if let Some(s) = e.downcast_ref::<String>() { s.clone() } else if let Some(s) = e.downcast_ref::<&str>() { s.to_string() } else { "?".to_string() };
@@ -174,10 +184,12 @@ pub fn harness_main(gen: fn(&mut Rng, u64) -> String, run: fn(&str) -> String) {
 			writeln!(o, "CASE {} {}", id, case).unwrap();
 			o.flush().unwrap();
 		}
-		unsafe { libc::alarm(budget) };
+		// CPU-time budget (ITIMER_PROF -> SIGPROF), so that a loaded machine does not turn a slow case into a hang;
+		// a wall-clock alarm at ten times the budget remains as a backstop for a case that blocks without using CPU
+		set_cpu_budget(budget);
 		let case_owned = case.to_string();
 		let r = panic::catch_unwind(move || run(&case_owned));
-		unsafe { libc::alarm(0) };
+		set_cpu_budget(0);
 		let obs = match r {
 			Ok(s) => s,
 			Err(e) => {
